@@ -124,6 +124,11 @@ func (l *vpListener) Accept() (net.Conn, error) {
 	if !ok {
 		return nil, vpErrClosed
 	}
+	if l.tls { // a TLS listener hands out *tls.Conn whose handshake has not run yet (crypto/tls: it runs on first use)
+		t := &vpTlsRec{conn: new(tls.Conn), cfg: l.cfg, under: c, fromListener: true}
+		vpS.tls = append(vpS.tls, t)
+		return t.conn, nil
+	}
 	return c, nil
 }
 func (l *vpListener) Close() error {
@@ -163,10 +168,11 @@ type vpSession struct {
 }
 
 type vpTlsRec struct {
-	conn      *tls.Conn
-	under     net.Conn
-	cfg       *tls.Config
-	handshook bool
+	conn         *tls.Conn
+	under        net.Conn
+	cfg          *tls.Config
+	handshook    bool
+	fromListener bool // handed out by a TLS listener: its handshake consumes the peer's hello (the 8 bytes "TLSHELLO")
 }
 
 type vpRoute struct {
@@ -267,13 +273,32 @@ func vpTlsServer(conn net.Conn, config *tls.Config) *tls.Conn {
 }
 func vpTlsHandshake(c *tls.Conn) error {
 	t := vpFindTlsRec(c)
+	if t.handshook {
+		return nil
+	}
+	if t.fromListener {
+		hello := make([]byte, 8)
+		if _, err := io.ReadFull(t.under, hello); err != nil || string(hello) != "TLSHELLO" {
+			return io.ErrUnexpectedEOF
+		}
+		t.handshook = true
+		return nil
+	}
 	if vp.Bool("tls-handshake-ok") {
 		t.handshook = true
 		return nil
 	}
 	return io.ErrUnexpectedEOF
 }
-func vpTlsRead(c *tls.Conn, p []byte) (int, error)  { return vpFindTlsRec(c).under.Read(p) }
+func vpTlsRead(c *tls.Conn, p []byte) (int, error) {
+	t := vpFindTlsRec(c)
+	if t.fromListener && !t.handshook {
+		if err := vpTlsHandshake(c); err != nil {
+			return 0, err
+		}
+	}
+	return t.under.Read(p)
+}
 func vpTlsWrite(c *tls.Conn, p []byte) (int, error) { return vpFindTlsRec(c).under.Write(p) }
 func vpTlsClose(c *tls.Conn) error                  { return vpFindTlsRec(c).under.Close() }
 func vpTlsRemoteAddr(c *tls.Conn) net.Addr          { return vpAddr{"tls-remote"} }
@@ -381,6 +406,7 @@ func vpMiddleware(next http.Handler) http.Handler { return next }
 func vpGetRequestLogger(address *net.TCPAddr) NextHandlerFunc { return vpMiddleware }
 
 type vpWsConn struct {
+	readLimit int64 // SetReadLimit value (0 = gorilla's default: unlimited)
 	conn   *websocket.Conn
 	in     chan []byte
 	out    [][]byte
@@ -416,6 +442,7 @@ func vpWsWriteMessage(c *websocket.Conn, messageType int, data []byte) error {
 	return nil
 }
 func vpWsUnderlyingConn(c *websocket.Conn) net.Conn { return newVpConn("ws-under") }
+func vpWsSetReadLimit(c *websocket.Conn, limit int64) { vpFindWs(c).readLimit = limit }
 func vpWsLocalAddr(c *websocket.Conn) net.Addr      { return vpAddr{"ws-local"} }
 func vpWsRemoteAddr(c *websocket.Conn) net.Addr     { return vpAddr{"ws-remote"} }
 func vpWsClose(c *websocket.Conn) error             { vpFindWs(c).closed++; return nil }
